@@ -26,6 +26,11 @@ def axis_keys(n, tier):
             out.append((k, ("int", base[k])))
         except IndexError:
             out.append((k, ("err",)))
+    for b in (False, True):  # bool is an int: a list accepts it as index 0 / 1
+        try:
+            out.append((b, ("int", base[b])))
+        except IndexError:
+            out.append((b, ("err",)))
     if n > 4:
         tier = "lite"
     ext = {"quick": 2, "thorough": 3, "lite": 1}[tier]
@@ -372,7 +377,9 @@ def shards_for(tier):
             out.append(("2d-single", tier, kind, h, w))
         for n in (8, 13):
             out.append(("1d", tier, kind, n))
-        for (h, w) in ([(2, 40), (40, 2), (17, 17), (1, 300), (16, 16)] if tier == "quick" else [(2, 40), (40, 2), (17, 17), (1, 300), (300, 1), (16, 16), (33, 33), (3, 1100), (64, 65)]):
+        # (mid-sized non-square shapes as well: 8..12 wide with a few rows, and the transposes)
+        mids = [(2, 8), (8, 2), (3, 10), (10, 3), (5, 9), (9, 5), (6, 8), (12, 9)]
+        for (h, w) in (mids + [(2, 40), (40, 2), (17, 17), (1, 300), (16, 16)] if tier == "quick" else mids + [(7, 11), (11, 7), (4, 13), (2, 40), (40, 2), (17, 17), (1, 300), (300, 1), (16, 16), (33, 33), (3, 1100), (64, 65)]):
             out.append(("scale", tier, kind, h, w))
         out.append(("reshape", tier, kind))
     return out
